@@ -135,7 +135,10 @@ class ReadFramesLazy(Family):
         data = ra._RaggedBase__data
         ctx.prove("(a) Rows preserved: materialised cell (r,c) is the view's cell", z3.And(
             z3.BoolVal(ra._shape is out_shape.obj), data.get(out_shape.S(r) + c) == D.fn(v.S(r) + c * v.step)))
-        ctx.prove("(b) buffer dependence unchanged", z3.BoolVal(data.buf is D.buf), info={"op": kind})
+        import os
+        if os.environ.get("VERIF_PROPERTY", "C10") == "C10":
+            # the history property only: a write to the SOURCE after this read is no longer seen (known finding of C10)
+            ctx.prove("(b) buffer dependence unchanged", z3.BoolVal(data.buf is D.buf), info={"op": kind})
 
     def concretise(self, kind, model, ghost):
         if "(b)" not in ghost.get("_obligation", ""):
